@@ -45,7 +45,9 @@ def main():
             print(name, "patch does not apply:", r.stdout[-300:]); results.append((name, "no-apply")); continue
         try:
             for pid in props:
-                c = sh([os.path.join(ROOT, "check"), pid], cwd=ROOT)
+                # evidence of runs against mutated sources must never land in /verif/evidence
+                env = dict(os.environ, VERIF_EVIDENCE_DIR=os.path.join(ROOT, "work", "selftest_evidence"))
+                c = sh([os.path.join(ROOT, "check"), pid], cwd=ROOT, env=env)
                 viol = [l for l in c.stdout.splitlines() if l.startswith("VIOLATION")]
                 status = "DETECTED" if c.returncode == 1 and viol else "MISSED(rc=%d)" % c.returncode
                 nf = sum(1 for l in viol if l.endswith("no-failing-input-found"))
